@@ -234,8 +234,10 @@ pub fn check(thorough: bool, _seed: u64) -> Check {
         units: 4,
         split: 2,
         body: Box::new(move |unit, cx| {
-            let sizes = [8usize, 9, 15, 16, 17, 24, 31, 32, 33, 40, 64, 65, 100, 129];
-            let n = sizes[cx.choose(if thorough { sizes.len() } else { 11 })];
+            // every number of pieces / coefficients from 8 to 80 (160 thorough), then the threshold sizes
+            let top = if thorough { 160 } else { 80 };
+            let k = cx.choose(top - 7 + 3);
+            let n = if k < top - 7 { 8 + k } else { [100usize, 129, 257][k - (top - 7)] };
             let (per, total) = match unit { 0 => (4, n * 4), 1 => (7, n * 7), 2 => (3, n * 3), _ => (1, n) };
             let _ = per;
             let a = base(total);
@@ -260,7 +262,7 @@ pub fn check(thorough: bool, _seed: u64) -> Check {
             verdict(names[unit], got, oracle(&a, &b, eps, rel), false, true).map(|_| ()).map_err(|(what, d)| Fail::new(what, json!({"pieces_or_length": n, "numbers": total, "perturbed_position": pos, "a[pos]": fj(a[pos]), "b[pos]": fj(b[pos]), "epsilon": fj(eps), "max_relative": fj(rel), "observation": d})))
         }),
         classes: vec![],
-        bounds: json!({"values": "Piecewise<Poly2>, Piecewise<IntOfLogPoly4>, Piecewise<Log<Poly1>> with n pieces and PolyN of length n, n in {8,9,15,16,17,24,31,32,33,40,64} (+65,100,129 thorough)", "pairs": "one number perturbed (inside / outside the 1e-3 tolerances) at every position in turn, every tolerance"}),
+        bounds: json!({"values": "Piecewise<Poly2>, Piecewise<IntOfLogPoly4>, Piecewise<Log<Poly1>> with n pieces and PolyN of length n, every n from 8 to 80 (160 thorough) and 100, 129, 257", "pairs": "one number perturbed (inside / outside the 1e-3 tolerances) at every position in turn, every tolerance"}),
     };
     // the same object on both sides (aliasing) with special values: the relation must still be the number-by-number one
     let alias = Phase {
